@@ -119,7 +119,13 @@ def step (_ : Unit) (pre post : List String) : Unit × Verdict :=
       let c := mkCase (kvs ws)
       let m := resStr (validate c.E c.r c.sbhArg)
       let i := " ".intercalate post
+      -- a panic is legitimate only for ledger states that cannot exist (division by zero: an
+      -- application without chains, a session node count of zero)
+      let degenerate := match c.app with
+        | some app => app.chains.isEmpty || c.E.nodeCount c.sbhArg = 0
+        | none => false
       if i = "FATAL" then .propfail "relay-validation-kills-node" s!"label={c.label} (log.Fatalf in GetTotalProofs: allowance rounds to 0 and no evidence yet)"
+      else if i = "PANIC" && !degenerate then .propfail "relay-validation-panics" s!"label={c.label}"
       else if post.head? = some "OK" then
         match specServed c false with
         | some v => v
